@@ -75,6 +75,9 @@ def evaluate(e, env, bits=64):
         if op == "Ne":
             return int(a != b)
         raise Uneval(op)
+    if k == "select":
+        c = evaluate(e[1], env, bits)
+        return evaluate(e[2], env, bits) if c else evaluate(e[3], env, bits)
     if k == "un":
         a = evaluate(e[2], env, bits)
         if e[1] == "Not":
